@@ -149,6 +149,9 @@ def same_axis(a, b):
     return False
 
 
+ALIGN_HOOK = [None]  # set by the harness: emits a positional-alignment obligation for two row axes
+
+
 def broadcast_axes(a, b, what="op"):
     """numpy broadcasting of two axis tuples (right-aligned)."""
     la, lb = len(a), len(b)
@@ -162,6 +165,8 @@ def broadcast_axes(a, b, what="op"):
         elif y is ONE:
             out.append(x)
         elif same_axis(x, y):
+            out.append(x)
+        elif ALIGN_HOOK[0] is not None and ALIGN_HOOK[0](x, y, what):
             out.append(x)
         else:
             raise Undecided(f"shape mismatch in {what}: axes {a} vs {b} (cannot show {x} and {y} are the same rows)")
